@@ -137,6 +137,9 @@ func (b *SimBtcWallet) CreateOpeningTransaction(p *swap.OpeningParams) (string, 
 		TakerPub: p.TakerPubkey, MakerPub: p.MakerPubkey, PayHash: p.ClaimPaymentHash})
 	b.Balance -= p.Amount + fee
 	b.Openings = append(b.Openings, txid)
+	if lay.Change && lay.SpendChange && idx != 0 {
+		w.Sim.After(ms(45000), "wallet", "spend-change", func() { w.BTC.SpendPlain(n.ID, txid, 0) })
+	}
 	w.Observe(&Obs{Node: n.ID, Inc: n.inc, Kind: "wallet.opening", Str: txid, Num: int64(idx), Tx: &TxObs{Chain: "btc", TxID: txid, Hex: rawHex, Kind: "opening"}})
 	if f != nil && f.Kind == "errafter" {
 		return "", "", "", 0, 0, errors.New("wallet rpc: publish acknowledged late (timeout)")
